@@ -41,6 +41,49 @@ def _seg_one(idx):
     return {"idx": idx, "fail": None, "msgs": sum(len(x) for x in base[0].values())}
 
 
+def _pipe_one(idx):
+    """one connection sends a burst of requests: every request in its own readiness event, or the whole burst queued before
+    the daemon looks (one event, the reader refills its buffer in the middle of frames): identical answers in identical order"""
+    r = C.rng("xdiff", "pipe", idx)
+    tr = r.choice(["raw", "ws", "ws", "uds"])
+    n = r.randrange(8, 45)
+    msgs = []
+    paths = []
+    for i in range(n):
+        k = r.randrange(6)
+        pad = "x" * r.choice([0, 3, 17, 60, 120, 200, 260])
+        if k == 0 or not paths:
+            p_ = "p%d/%s" % (i, pad[:r.randrange(0, 40)])
+            paths.append(p_)
+            msgs.append(D.obj(method="add", params=D.obj(path=p_, value=pad), id=i))
+        elif k == 1:
+            msgs.append(D.obj(method="change", params=D.obj(path=r.choice(paths), value=[i, pad]), id=i))
+        elif k == 2:
+            msgs.append(D.obj(method="get", params=D.obj(path=D.obj(startsWith="p%d" % r.randrange(n))), id="g%d%s" % (i, pad[:50])))
+        elif k == 3:
+            msgs.append(D.obj(method="info", id="i%d%s" % (i, pad)))
+        elif k == 4:
+            msgs.append([D.obj(method="info", id=i), D.obj(method="config", params=D.obj(name="n%d" % i), id="c%d" % i)])
+        else:
+            msgs.append(D.obj(method="remove", params=D.obj(path=paths.pop(r.randrange(len(paths)))), id=i))
+    head = [("connect", 0, tr, "unix" if tr == "uds" else "local6"), ("connect", 1, r.choice(["raw", "ws"]), "remote6"),
+            ("msg", 1, D.obj(method="fetch", params=D.obj(id="watch"), id=1))]
+    tail = [("quiesce",), ("eof", 0), ("quiesce",), ("eof", 1), ("quiesce",)]
+    a_sc = D.Scenario(head + [("msg", 0, m) for m in msgs] + tail, name="pipe-%d-apart" % idx)
+    b_sc = D.Scenario(head + [("batch", [(0, m) for m in msgs])] + tail, name="pipe-%d-burst" % idx)
+    ra, rb = dcheck.run_one(a_sc), dcheck.run_one(b_sc)
+    for res, sc_ in ((ra, a_sc), (rb, b_sc)):
+        if res["res"]["sanitizer"] or res["log"].faults or res["dis"]:
+            return {"idx": idx, "fail": "sanitizer/hygiene/model: %s %s %s" % (res["res"]["sanitizer"], res["log"].faults[:1], [d["what"] for d in res["dis"][:2]]),
+                    "sc": sc_.to_json()}
+    va, vb = _view(a_sc, ra), _view(b_sc, rb)
+    if va != vb:
+        what = "streams" if va[0] != vb[0] else ("closed connections" if va[1] != vb[1] else "final element image")
+        return {"idx": idx, "fail": "a burst of %d requests on a %s connection is answered differently when it is queued at once (%s differ)" % (n, tr, what),
+                "sc": b_sc.to_json()}
+    return {"idx": idx, "fail": None, "msgs": sum(len(x) for x in va[0].values())}
+
+
 def _fin_one(idx):
     """the last request of every connection and its end of stream arrive in ONE readiness event, or in two: the request must
     be processed either way (same answers, same effect on the others)"""
@@ -104,6 +147,20 @@ def segmentation(ctx, out, n_quick=120, n_thorough=2000):
     for r in badf[:2]:
         out.violation("whole daemon: " + r["fail"], {"property": "C09", "scenario": r["sc"], "what": r["fail"],
                                                      "family": "last request and end of stream in one readiness event vs. two"})
+    badp = []
+    totp = 0
+    with ProcessPoolExecutor(C.NPROC) as ex:
+        for r in ex.map(_pipe_one, [ctx.seed * 1000003 + i for i in range(nf)], chunksize=2):
+            if r["fail"]:
+                badp.append(r)
+            else:
+                totp += r["msgs"]
+    for r in badp[:2]:
+        out.violation("whole daemon: " + r["fail"], {"property": "C09", "scenario": r["sc"], "what": r["fail"],
+                                                     "family": "burst of requests in one readiness event vs. one event per request"})
+    out.coverage["daemon_burst_sessions"] = nf
+    out.coverage["daemon_burst_messages_compared"] = totp
+    out.coverage["daemon_burst_failures"] = len(badp)
     out.coverage["daemon_fin_together_sessions"] = nf
     out.coverage["daemon_fin_together_failures"] = len(badf)
     out.coverage["daemon_segmentation_sessions"] = n
